@@ -327,7 +327,7 @@ theorem getRows_eq (s : Selector) (k : RowKey) :
     s.getRows k = match processKey s.nmax k with
       | .error e => .error e
       | .ok p => s.slice p.1 p.2 := by
-  simp only [Selector.getRows, selectorGetItem]
+  simp only [Selector.getRows, selectorGetItem, selectorRows]
   cases h : processKey s.nmax k with
   | error e => simp
   | ok p =>
